@@ -98,16 +98,24 @@ Qed.
 
 (* ---------- CDATA sections: a reference decoder and the round trip ---------- *)
 
-(* a decoder for a sequence of CDATA sections written back to back: what any XML tokenizer reads out of them *)
+(* a decoder for a sequence of CDATA sections written back to back, possibly with the character reference to CR between
+   two of them: what any XML tokenizer and reference decoder read out of them *)
 Inductive cstate :=
 | COpen (k : nat)          (* k characters of "<![CDATA[" matched *)
+| CRef (k : nat)           (* between two sections: k characters of the reference "&#xD;" matched *)
 | CBody (seen : nat).      (* inside a section; the last [seen] (0, 1 or 2) characters were ']' and are held back *)
 
 Definition cdata_step (st : cstate) (c : cp) : option (cstate * str) :=
   match st with
   | COpen k =>
+      if Nat.eqb k 0 && (c =? c_amp) then Some (CRef 1, []) else
       match nth_error s_cdata_open k with
       | Some e => if c =? e then Some (if Nat.eqb (S k) 9 then CBody 0 else COpen (S k), []) else None
+      | None => None
+      end
+  | CRef k =>
+      match nth_error s_cr k with
+      | Some e => if c =? e then (if Nat.eqb (S k) 5 then Some (COpen 0, [c_cr]) else Some (CRef (S k), [])) else None
       | None => None
       end
   | CBody seen =>
@@ -166,10 +174,13 @@ Proof.
            destruct k as [|[|[|]]]; try lia; cbn; rewrite IH by lia; cbn; reflexivity.
         -- apply PeanoNat.Nat.eqb_neq in E4.
            destruct k as [|[|[|]]]; try lia; destruct seen as [|[|[|]]]; try lia; cbn; rewrite IH by lia; cbn; reflexivity.
-      * destruct k as [|[|[|]]]; try lia; destruct seen as [|[|[|]]]; try lia;
-          cbn [rbrs app cdata_decode_go];
-          repeat (rewrite cdata_step_rbr; cbn [Nat.ltb Nat.leb cdata_decode_go]);
-          rewrite (cdata_step_other _ _ E1 E3); rewrite IH by lia; cbn; reflexivity.
+      * destruct (c =? c_cr) eqn:E5.
+        -- apply N.eqb_eq in E5; subst c.
+           destruct k as [|[|[|]]]; try lia; destruct seen as [|[|[|]]]; try lia; cbn; rewrite IH by lia; cbn; reflexivity.
+        -- destruct k as [|[|[|]]]; try lia; destruct seen as [|[|[|]]]; try lia;
+             cbn [rbrs app cdata_decode_go];
+             repeat (rewrite cdata_step_rbr; cbn [Nat.ltb Nat.leb cdata_decode_go]);
+             rewrite (cdata_step_other _ _ E1 E3); rewrite IH by lia; cbn; reflexivity.
 Qed.
 
 (* whatever the text — runs of ']' and '>', "]]>" itself — the sections decode to exactly the text *)
